@@ -7,7 +7,6 @@ import (
 	"time"
 
 	"github.com/anishathalye/porcupine"
-	"verifsim/simrt"
 )
 
 // C01 - reads return only the latest value written for that key (linearizable map).
@@ -215,7 +214,7 @@ func checkC01(rd *RunData) []Violation {
 	for _, k := range keys {
 		ops := kops[k]
 		if len(ops) > 60 {
-			simrt.Probe("c01.history-too-long")
+			probe("c01.history-too-long")
 			continue
 		}
 		res := porcupine.CheckOperationsTimeout(regModel, ops, 5*time.Second)
